@@ -227,7 +227,10 @@ def sym_node(I, K):
     st.mention(kwci, target=True)
     st.assume(z3.ForAll([r], z3.Implies(z3.And(z3.Select(st.h.kind, r) == K_INST, issub(z3.Select(st.h.cls, r), kwci.cid)),
                                         z3.And(z3.Select(st.h.hasf("value"), r),
-                                               node_of_type(I, z3.Select(st.h.field("value"), r), "expr")))))
+                                               node_of_type(I, z3.Select(st.h.field("value"), r), "expr"),
+                                               z3.Select(st.h.hasf("arg"), r),
+                                               z3.Or(z3.Select(st.h.field("arg"), r) == NONE,
+                                                     V.is_str(z3.Select(st.h.field("arg"), r)))))))
     return n
 
 
@@ -350,8 +353,9 @@ SAMPLES_BY_CLASS = {
 
 def candidates(cls_name, conjunct):
     out = []
-    if cls_name == "Call" and conjunct.startswith("field:keywords"):
+    if cls_name == "Call" and (conjunct.startswith("field:keywords") or conjunct in ("inv", "child-is-AST", "heap-unchanged")):
         out += [f"round(1.5, ndigits={e})" for e in ESCAPES] + [f"round(1.5, **{e})" for e in ESCAPES]
+        out += [f"str(**{{'object': {e}}})" for e in ESCAPES] + [f"abs({e})" for e in ESCAPES]
     elif cls_name == "Call" and conjunct.startswith("field:args"):
         out += [f"abs({e})" for e in ESCAPES]
     elif cls_name == "Call" and conjunct.startswith("call-target"):
